@@ -410,4 +410,102 @@ example : reobserve exCfg (exNode "gov" 0) 3280000 255 32 "t1" = [toPub "t1" exM
 example : reobserve exCfg (exNode "other" 0) 3280000 255 32 "t1" = [] := by decide
 example : reobserve exCfg (exNode "gov" 3000000) 3280000 255 32 "t1" = [] := by decide
 
+/-! ## the constructor: the floor in force on a real node -/
+
+/-- **The floor does not come from the configuration.** A watcher built by `NewAlephiumWatcher` takes the two contract
+ids and the group index from `configs/alephium/<network>.json` and nothing else; started with the mainnet flag it holds
+every token transfer for `max(cl, 205)` block intervals, whatever else the file says. -/
+theorem constructed_floor (toAddr : Bytes → String) (cc : ChainCfg) (b : Built)
+    (h : newWatcher toAddr cc true = some b) (cl : Nat) :
+    confDur b.cfg.mainnet true cl = max cl 205 * 16000 ∧ cc.tokenBridge = some b.cfg.bridge ∧
+      (∃ g, cc.governance = some g ∧ b.cfg.gov = toAddr g) ∧ b.group = cc.groupIndex := by
+  unfold newWatcher at h
+  split at h
+  · rename_i g br hg hb
+    cases h
+    exact ⟨confDur_mainnet_transfer cl, hb, ⟨g, hg, rfl⟩, rfl⟩
+  · cases h
+
+/-- … in particular the file's `minimalConsistencyLevel` (the minimum the token-bridge *contract* accepts: 105 in the
+shipped mainnet file, 10 in the other two) has no influence on the watcher that is built. -/
+theorem constructed_ignores_minimal (toAddr : Bytes → String) (cc : ChainCfg) (k : Nat) (mainnet : Bool) :
+    newWatcher toAddr { cc with minimalConsistencyLevel := k } mainnet = newWatcher toAddr cc mainnet := rfl
+
+/-- A transfer confirmed by a watcher that the constructor built for mainnet is at least `max(cl, 205)` block intervals old. -/
+theorem constructed_confirmed_final (toAddr : Bytes → String) (cc : ChainCfg) (b : Built)
+    (h : newWatcher toAddr cc true = some b) {m : Msg} {hd : Header} {now height : Int} (hr : InRange m.cl hd)
+    (ht : isTransfer m = true) (hc : isEventConfirmed m hd now height b.cfg.mainnet = true) :
+    hd.height + m.cl ≤ height ∧ hd.ts + ((max m.cl 205 : Nat) : Int) * 16000 ≤ now := by
+  have hm : b.cfg.mainnet = true := by
+    unfold newWatcher at h
+    split at h
+    · cases h; rfl
+    · cases h
+  obtain ⟨⟨h1, h2⟩, _⟩ := confirmed_final hr hc
+  exact ⟨h1, h2 hm ht⟩
+
+private def exMainnetFile : ChainCfg :=
+  { groupIndex := 0, governance := some (List.replicate 32 1), tokenBridge := some (List.replicate 32 2), minimalConsistencyLevel := 105 }
+example : (newWatcher (fun _ => "gov") exMainnetFile true).map (fun b => (b.cfg.mainnet, b.group, confDur b.cfg.mainnet true 10)) = some (true, 0, 3280000) := by decide
+example : (newWatcher (fun _ => "gov") { exMainnetFile with tokenBridge := none } true).isNone = true := by decide
+
+/-! ## one event, one message: the two paths publish the same thing -/
+
+/-- What the polling path publishes for a forwarded entry is the message of that entry under the header of its block —
+field by field; the consistency level is the event's, not the level the finality rule applied. -/
+theorem poll_publication_exact (cfg : Cfg) (o : Oracle) (height now : Int) (s : WState) (c : Unconf × Header)
+    (hc : c ∈ (stepHeight cfg o height now s).2) :
+    (∃ pb ∈ s.pending, c.1 ∈ pb.evs ∧ headerOf o pb = some c.2) ∧
+      pubOf c = { tx := c.1.ev.tx, ts := c.2.ts, nonce := c.1.msg.nonce, seq := c.1.msg.seq, cl := c.1.msg.cl, emitterChain := 255,
+                  targetChain := c.1.msg.targetChain, emitter := c.1.msg.sender, payload := c.1.msg.payload } := by
+  obtain ⟨pb, hpb, hu, hh, _⟩ := poll_forwarded cfg o height now s c hc
+  exact ⟨⟨pb, hpb, hu, hh⟩, rfl⟩
+
+/-- **Both paths hand over the same message for one event.** Whatever a re-observation request publishes is `toPub` of
+an event of the transaction under the header the node reports for its block; if that event is the one the polling path
+forwarded (the same log entry, converted to the same message, the same header answer) the two publications are equal in
+every field — timestamp and consistency level included — so every guardian signs the same body for it, whichever way
+the event reached it and whatever network flag it runs with. -/
+theorem paths_publish_same (cfg cfg' : Cfg) (o : Oracle) (height now : Int) (s : WState) (c : Unconf × Header)
+    (hc : c ∈ (stepHeight cfg o height now s).2) (hwf : c.1.ev.conv = some c.1.msg)
+    (node : ReobsNode) (now' : Int) (chain hashLen : Nat) (p : Pub)
+    (hp : p ∈ reobserve cfg' node now' chain hashLen c.1.ev.tx) :
+    (∃ pb ∈ s.pending, c.1 ∈ pb.evs ∧ headerOf o pb = some c.2) ∧
+    ∃ evs e m h, node.txEvents = some evs ∧ e ∈ evs ∧ node.hdr e.block = some h ∧ e.conv = some m ∧ p = toPub c.1.ev.tx m h ∧
+      (e = c.1.ev → h = c.2 → p = pubOf c) := by
+  obtain ⟨bh, evs, e, m, h, _, _, _, _, hev, hin, _, _, hblock, _, hhdr, hconv, _, _, _, _, rfl⟩ :=
+    reobserve_forwarded cfg' node now' chain hashLen c.1.ev.tx p hp
+  refine ⟨(poll_publication_exact cfg o height now s c hc).1, evs, e, m, h, hev, hin, by rw [hblock]; exact hhdr, hconv, rfl, fun he hh => ?_⟩
+  subst he hh
+  rw [hwf] at hconv
+  cases hconv
+  rfl
+
+example : reobserve { exCfg with mainnet := false } (exNode "gov" 0) 3280000 255 32 "t1"
+    = (stepHeight exCfg exOracle 101 3280000 exState).2.map pubOf := by decide
+
+/-- **Every message of a batch is published under its own block's header**, in whatever order the pending map hands the
+batch over and whatever foreign-sender events stand in between: the publications are those of a sublist of the batch,
+each entry keeping its own header. -/
+theorem confirmed_own_header (cfg : Cfg) (conf : List (Unconf × Header)) :
+    (handleConfirmed cfg conf).1.Sublist conf ∧
+      ∀ p ∈ (handleConfirmed cfg conf).1.map pubOf, ∃ c ∈ conf, p = toPub c.1.ev.tx c.1.msg c.2 ∧ p.ts = c.2.ts ∧ p.seq = c.1.msg.seq := by
+  refine ⟨handleConfirmed_sublist cfg conf, fun p hp => ?_⟩
+  obtain ⟨c, hc, rfl⟩ := List.mem_map.1 hp
+  exact ⟨c, (handleConfirmed_mem cfg conf c hc).1, rfl, rfl, rfl⟩
+
+/-- … and the set of publications does not depend on that order. -/
+theorem confirmed_order_independent (cfg : Cfg) (conf conf' : List (Unconf × Header)) (hperm : conf.Perm conf')
+    (h0 : ∀ c ∈ conf, c.1.ev.idx = 0) :
+    ((handleConfirmed cfg conf).1.map pubOf).Perm ((handleConfirmed cfg conf').1.map pubOf) := by
+  have h0' : ∀ c ∈ conf', c.1.ev.idx = 0 := fun c hc => h0 c (hperm.mem_iff.2 hc)
+  rw [handleConfirmed_of_idx0 cfg conf h0, handleConfirmed_of_idx0 cfg conf' h0']
+  exact (hperm.filter _).map _
+
+private def exMsg2 : Msg := ⟨exBridge, 2, 6, 8, 1, [1, 0]⟩
+private def exEv2 : Event := ⟨1, "b2", "t2", 0, "-", some exMsg2⟩
+-- sequence 9 in the block with timestamp 0 arrives ahead of sequence 8 in the block with timestamp 16000, a foreign sender in between
+example : (handleConfirmed exCfg [(⟨exEv, exMsg⟩, ⟨100, 0⟩), (⟨exEv, { exMsg with sender := [8] }⟩, ⟨100, 5⟩), (⟨exEv2, exMsg2⟩, ⟨101, 16000⟩)]).1.map pubOf
+    = [toPub "t1" exMsg ⟨100, 0⟩, toPub "t2" exMsg2 ⟨101, 16000⟩] := by decide
+
 end Whv.C08
